@@ -212,6 +212,13 @@ fn guarded_check<P: Prop>(
 ) -> Result<Result<(), Fail>, String> {
     crate::hsys::LAST_PANIC_LOC.with(|l| l.borrow_mut().clear());
     match catch_unwind(AssertUnwindSafe(|| p.check(case, lane, st))) {
+        Ok(Err(f))
+            if f.key.as_deref() == Some("build-or-identify")
+                && f.msg.contains(crate::build::AFTER_REJECTED) =>
+        {
+            st.class("discarded_builder_unusable_after_a_caught_rejected_registration");
+            Ok(Ok(()))
+        }
         Ok(r) => Ok(r),
         Err(e) => {
             // a panic that escaped the oracle: raised by the library (or a crate it builds on) it
